@@ -146,6 +146,12 @@ class LogicC08:
 
     raises = {}
 
+    clause_when = {
+        "burst-replies": lambda c: c.get("cmd") == 3 and c.get("subs") in (0, None),
+        "burst-desired": lambda c: c.get("cmd") == 3 and c.get("subs") in (0, None),
+        "report-clears-desired": lambda c: c.get("cmd") == 1,
+    }
+
     ensures = {
         # at a wake-up announcement every withheld reply goes out exactly once, oldest first ...
         "burst-replies": lambda old, self, data, result: not (
@@ -227,6 +233,15 @@ class LogicC10:
         return inv(self)
 
     raises = {}
+
+    clause_when = {
+        "malformed-ignored": lambda c: c.get("cmd") == 4,
+        "gated": lambda c: c.get("cmd") == 4,
+        "config": lambda c: c.get("cmd") == 4,
+        "block": lambda c: c.get("cmd") == 4,
+        "reboot-on-set": lambda c: c.get("cmd") == 1,
+        "presentation-ends-reboot": lambda c: c.get("cmd") == 0,
+    }
 
     ensures = {
         # malformed firmware requests are ignored: no reply and no change to the session
